@@ -235,7 +235,17 @@ def expected_print(model_ok_text, consts):
 # ------------------------------------------------------------------------------- implementation
 def impl_parse(text, variables=(), consts=(), unit=None, kind="offd", limit=20.0):
     def go():
+        import zlib
+        import rtamt
         spec = impl.make_spec(kind, text, list(variables), consts=[(k, "float", v) for k, v in consts], unit=unit)
+        if zlib.crc32(("again:" + text).encode("utf-8")) % 3 == 0:
+            # a caller that retries: a text that was rejected must be rejected again by the same object (nothing of the failed
+            # attempt may make the second one succeed)
+            try:
+                spec.parse()
+            except rtamt.RTAMTException:
+                spec.parse()
+            return spec.spec_print()
         spec.parse()
         return spec.spec_print()
     return impl.guarded(go, limit, True)
